@@ -3,6 +3,7 @@ package main
 import (
 	"context"
 	"fmt"
+	"strings"
 	"sync"
 
 	"github.com/smart-core-os/sc-api/go/types"
@@ -24,7 +25,7 @@ func forcedDeleteWindow(r *vk.Run) {
 	sched := vk.NewSched()
 	defer sched.Close()
 	idx := 0
-	for _, window := range []string{"col.delete.afterRead", "col.delete.beforeLock"} {
+	for _, window := range []string{"col.delete.afterRead", "col.delete.beforeLock", "upsert@gau.afterRead", "upsert@gau.beforeLock"} {
 		for p := 0; p < 64; p++ {
 			for _, bp := range []bool{true, false} {
 				for from := 0; from < 2; from++ {
@@ -36,7 +37,12 @@ func forcedDeleteWindow(r *vk.Run) {
 					pred := g.predFn(p)
 					v0 := &val{tag: int32(from + 1), seq: 1}
 					v1 := &val{tag: int32(2 - from), seq: 2}
-					col := resource.NewCollection(resource.WithInitialRecord("a", mkMsg("a", v0)))
+					upsert := strings.HasPrefix(window, "upsert@")
+					var copts []resource.Option
+					if !upsert {
+						copts = append(copts, resource.WithInitialRecord("a", mkMsg("a", v0)))
+					}
+					col := resource.NewCollection(copts...)
 					ctx, cancel := context.WithCancel(context.Background())
 					var mu sync.Mutex
 					view := map[string]proto.Message{}
@@ -58,11 +64,24 @@ func forcedDeleteWindow(r *vk.Run) {
 						cancel()
 						return
 					}
-					park := sched.ParkAt(window, nil)
-					td := vk.Go(func() { col.Delete("a") })
+					var park *vk.Park
+					var td *vk.Task
+					var uerr error
+					if upsert {
+						// two creating writers of one new id: the parked one has read "absent" when the other creates the item
+						park = sched.ParkAt(strings.TrimPrefix(window, "upsert@"), nil)
+						td = vk.Go(func() { col.Update("a", mkMsg("a", v1), resource.WithCreateIfAbsent()) })
+					} else {
+						park = sched.ParkAt(window, nil)
+						td = vk.Go(func() { col.Delete("a") })
+					}
 					vk.Quiesce()
 					reached := park.Arrived()
-					_, uerr := col.Update("a", mkMsg("a", v1))
+					if upsert {
+						_, uerr = col.Update("a", mkMsg("a", v0), resource.WithCreateIfAbsent())
+					} else {
+						_, uerr = col.Update("a", mkMsg("a", v1))
+					}
 					park.Release()
 					td.Wait()
 					if _, ok := r.MustQuiesce("c08-forced-final"); !ok {
@@ -95,7 +114,11 @@ func forcedDeleteWindow(r *vk.Run) {
 					trace := append([]string{}, log...)
 					mu.Unlock()
 					if bad != "" {
-						r.Violation("C08/fold/"+mode+"/delete-racing-update/"+bad, fmt.Sprintf("Delete(a) parked at %s while Update(a) moved the item from tag %d to tag %d (update error: %v); predicate %s; afterwards List(include) has %v but the folded stream holds %d item(s)\nreceived:\n  %s", window, v0.tag, v1.tag, uerr, predString(p), listed, len(view), joinLines(trace)), map[string]any{"window": window, "predicate": p, "backpressure": bp, "from_tag": v0.tag})
+						what := "delete-racing-update"
+						if upsert {
+							what = "upsert-racing-upsert"
+						}
+						r.Violation("C08/fold/"+mode+"/"+what+"/"+bad, fmt.Sprintf("the first writer of item a was parked at %s while Update(a) moved the item from tag %d to tag %d (update error: %v); predicate %s; afterwards List(include) has %v but the folded stream holds %d item(s)\nreceived:\n  %s", window, v0.tag, v1.tag, uerr, predString(p), listed, len(view), joinLines(trace)), map[string]any{"window": window, "predicate": p, "backpressure": bp, "from_tag": v0.tag})
 					}
 					cancel()
 				}
